@@ -17,12 +17,13 @@ func init() {
 		Level: "exploration",
 		Rule: "exhaustive: all pairs from a corpus of ~90 values (numeric grid in three representations - int64 literal, float64, json.Number -, strings incl. multi-byte, booleans, null, arrays, objects, datetimes) x 6 operators x both orders x lax/strict as predicate checks; order axioms (trichotomy, duality, unions, transitivity over all numeric and string triples) checked on the observed outcomes; sequences of scalars for the existential/strict rule; starts with on all string pairs; like_regex strings x patterns x flag sets against Go's regexp with flags translated in the harness. " +
 			"Non-trivial: the two operands are different corpus entries; distinct by (expression, operands, mode)",
-		Run:    runC12,
-		Replay: replayC12,
-		MinExercised: map[string]int64{"model": 20000, "trichotomy": 2000, "duality": 2000, "unions": 2000, "transitive": 1, "null": 100, "crosstype": 1000, "sequence.lax": 100, "sequence.strict": 100, "startswith": 500, "likeregex": 2000},
+		Run:          runC12,
+		Replay:       replayC12,
+		MinExercised: map[string]int64{"model": 20000, "trichotomy": 2000, "duality": 2000, "unions": 2000, "transitive": 1, "null": 100, "crosstype": 1000, "sequence.lax": 100, "sequence.strict": 100, "startswith": 500, "startswith.sequence": 500, "likeregex": 2000, "cmp.model": 2000, "cmp.antisym": 1000, "cmp.coherent": 1000},
 		Assumptions: []string{
 			"numbers get a by-value verdict only where the value is unambiguous in the given representation (int64-range integers, finite doubles, json.Numbers whose text is exactly one of those); other json.Numbers are exercised for totality only",
 			"equal instants of time-with-zone values are ordered by offset; the direction is not pinned, only consistency (antisymmetry)",
+			"datetime pairs reuse the comparison monitor of C17 (clauses cmp.*) on a coarser sub-grid, under WithTZ only",
 		},
 	})
 }
@@ -460,6 +461,47 @@ func runC12(c *h.Ctx) {
 			}
 		}
 	}
+	// starts with over sequences: the left operand is unwrapped in lax mode
+	// (existential), the right operand never is
+	idx = 0
+	for _, a := range strs {
+		for _, b := range strs {
+			idx++
+			if !c.Mine(idx) {
+				continue
+			}
+			for _, mode := range []string{"", "strict "} {
+				type swc struct {
+					x, y any
+					want model.Tri
+				}
+				pre := model.FromBool(strings.HasPrefix(a, b))
+				leftWant := model.Unknown // strict: an array is not a string
+				if mode == "" {
+					leftWant = model.Or(pre, model.Unknown) // [a, 1]: some pair true, else unknown
+				}
+				for k, sc := range []swc{
+					{a, []any{b}, model.Unknown},
+					{a, []any{b, b}, model.Unknown},
+					{a, []any{}, model.Unknown},
+					{[]any{a, 1.0}, b, leftWant},
+					{[]any{1.0, a}, b, leftWant},
+				} {
+					p := cachedPath(mode + "$x starts with $y")
+					o := h.Call("query", p, "doc", h.Opts{Vars: map[string]any{"x": sc.x, "y": sc.y}})
+					c.Eval(1)
+					got, _, ok := triOf(o)
+					cs := h.Case{Kind: "startswith", Path: mode + "$x starts with $y", Vars: fmt.Sprintf(`{"x":%s,"y":%s}`, h.Canon(sc.x), h.Canon(sc.y))}
+					if !ok || got != sc.want {
+						c.Violate("startswith.sequence", h.F("mode", mode, "shape", fmt.Sprint(k)), fmt.Sprintf("%s$x starts with $y with x=%s y=%s = %s; expected %v", mode, h.Canon(sc.x), h.Canon(sc.y), o.Summary(), sc.want), cs)
+					} else {
+						c.Held("startswith.sequence")
+					}
+					c.Distinct("sws", mode, a, b, fmt.Sprint(k))
+				}
+			}
+		}
+	}
 	for i, v := range []any{1.0, nil, true, []any{}, map[string]any{}} {
 		if !c.Mine(i) {
 			continue
@@ -529,6 +571,29 @@ func runC12(c *h.Ctx) {
 		}
 	}
 	_ = json.Number("")
+
+	// datetimes by instant: all pairs of a sub-grid of the C17 datetime
+	// strings (five types, offsets, day boundaries, DST dates) x 6 operators
+	// under WithTZ in a UTC, a fixed-offset and a named context zone, against
+	// the time-arithmetic model, with antisymmetry and explicit-cast coherence
+	var dts []dtStr
+	for i, s := range c17Grid(c.Thorough()) {
+		if s.kind != "bad" && i%c.N(2, 1) == 0 {
+			dts = append(dts, s)
+		}
+	}
+	c.Count("datetime.strings", int64(len(dts)))
+	for zi, zone := range []string{"UTC", "+05:30", "America/New_York", "-08:00"} {
+		rel := map[[2]string]int{}
+		for ai, a := range dts {
+			if !c.Mine(ai + zi) {
+				continue
+			}
+			for _, b := range dts {
+				checkCompare(c, a, b, true, zone, rel)
+			}
+		}
+	}
 }
 
 // gQuote quotes a string for a path literal (harness' own quoting).
